@@ -67,6 +67,12 @@ def run(ck, tier, seed):
             for d in (0, 1, 3):
                 for ppm in (0, 12):
                     srcs.append({"font": lf, "text": t[:rng.choice([8, 20, 40])], "dir": d, "ppm": ppm})
+    # a font whose first pass is a positioning pass and whose bidi step comes first (no justification passes to run)
+    pf = corpus.posonly_font(tmp)
+    for t in ("abcab", "ab ba cab", "bbaab(c)"):
+        for d in range(8):
+            for ppm in (0, 12):
+                srcs.append({"font": pf, "text": t, "dir": d, "ppm": ppm})
     sf = os.path.join(tmp, "sources.ndjson")
     open(sf, "w").write("\n".join(json.dumps(s) for s in srcs) + "\n")
     trace = os.path.join(tmp, "trace.ndjson")
